@@ -74,6 +74,19 @@ CHECKS = {
             'supplied laminate matrices; conditioning-aware tolerance 1e-11 of sum|c||f||g|',
             'trusts vlib/ref/bardell.py and vlib/ref/panel.py; true interleaving races are not controllable (thread counts 1..16 varied)',
             '3 C11'),
+    'C12': ('Hypothesis-generated panel pairs / connection kinds / positions / placements; differential oracle: Hessian of the '
+            'interface mismatch energy from geometric jump definitions; package-only energy identity through Panel.uvw; '
+            'metamorphic laws for calc_kt_kr',
+            'generated-input search over the five connection kinds, interface positions inside either panel, different sizes, '
+            'series orders, flags, kt/kr and either ordering of p1/p2 in the global vector (kernel level and through '
+            'PanelAssembly.get_k0_conn); symmetry, PSD, linearity in kt/kr, exchange symmetry and moduli scaling of the constants',
+            'jump definitions are stated in ASSUMPTIONS and cross-checked by the energy identity against the package own fields', '3 C12'),
+    'C13': ('Hypothesis-generated assemblies and stiffened bays; differential oracle built from stand-alone components (fresh '
+            'Panel objects, bays carrying a single stiffener); metamorphic: cut skin == uncut skin; invariant: PSD contributions',
+            'generated-input search over assemblies of 1..6 panels in any order with optional connections, and bays with 0..4 '
+            'skin cuts and 0..3 stiffeners of the three kinds in any insertion order; size/ranges, k0/kG0/kM equal the sum of '
+            'components at their ranges; stiffener contributions symmetric PSD (two kernel/modelling findings matched by predicates)',
+            'components are evaluated by the package itself on fresh objects; their own correctness is C02-C04/C12', '3 C13'),
     'C10': ('exhaustive enumeration of the finite table domains + Hypothesis-generated sub-intervals/maps/flags; oracle: '
             'exact rational Bardell polynomials; C sources parsed and evaluated in exact rational arithmetic',
             'the C library is compiled from the current tree and every one of the 6x900 full-interval entries x 256 flag '
